@@ -460,7 +460,17 @@ class Master(loader.Loader):
             if after and (before != after or exp_before != exp_after)
         }
 
-        for servername, server in self.cell.members().items():
+        members = self.cell.members()
+
+        # Records under servers that are not part of the cell (anymore) can
+        # never be correct, and would duplicate a placement made elsewhere.
+        for servername in set(self.backend.list(z.PLACEMENT)) - set(members):
+            placement_node = z.path.placement(servername)
+            for app in self.get_placed_apps(servername):
+                _LOGGER.info('Unscheduling: %s - %s', servername, app)
+                self.backend.delete(os.path.join(placement_node, app))
+
+        for servername, server in members.items():
             placement_node = z.path.placement(servername)
             self.backend.ensure_exists(placement_node)
 
